@@ -9,10 +9,16 @@ _BOUNDED = ("Bounded: the verdict covers every input inside the per-harness boun
 
 REGISTRY = {
     "C01": dict(
-        modules=["harness.c01_algebra"],
+        modules=["harness.c01_algebra", "harness.c01_arrays"],
         technique="CrossHair symbolic execution of the real matcher classes (symbolic posting lists) vs list algebra; z3 decides every path",
         text="Symbolic execution (CrossHair+z3) of the shipped matcher classes over symbolic ascending posting lists, depth 1 and "
              "every depth-2 nesting of the binary classes, compared with list algebra; 'Confirmed over all paths' required.",
+        note=_BOUNDED),
+    "C13": dict(
+        modules=["harness.c13_numeric"], e2=True, engine="E2-pybmc",
+        technique="bounded model checking of the real split_ranges/to_sortable source (AST -> z3 bit-vectors, unwinding + no-overflow obligations)",
+        text="pybmc interprets the current source of whoosh.util.numeric over z3 bit-vectors; for every bit width and shift step the "
+             "negated exact-cover property is unsat over the whole domain; unwinding and no-overflow obligations discharged.",
         note=_BOUNDED),
 }
 
